@@ -23,7 +23,7 @@ import (
 	"verif/harness/sm"
 )
 
-const ruleC07 = "concurrent programs: after a generated sequential setup (1-2 collections, 3-8 documents, optional indexes) 2-8 goroutines each issue 2-6 generated operations (Insert batches with supplied ids, UpdateById, bulk Update/UpdateFunc/Delete, DeleteById, CreateIndex, DropIndex, CreateCollection, DropCollection, FindAll, Count, FindById, ListCollections) on one handle over bbolt or badger; a store decorator consults a drawn bit vector before every store call and yields (Gosched) or sleeps up to 200 microseconds to perturb the schedule. The recorded call/return history with result digests must be linearizable with respect to the reference model (porcupine; a store conflict error is legal only as a no-op; a checker timeout is inconclusive, never a violation); a sequential epilogue (Count without criteria, full and index-ordered scans, catalogs) is part of every history, so drift left behind by a race is seen too. A second phase shares one *query.Query / Criteria between goroutines that derive queries from it concurrently. The same cases run in a -race build; any data-race report is a violation. A third part runs one writer issuing bulk Updates over a collection of 257-1100 documents against readers that export, scan and index-scan it: every single ExportCollection / FindAll result must show one generation for all documents. An evaluation is one concurrent program; non-trivial when at least two operations overlapped in real time on the same collection and one of them was a write; distinct = distinct programs (setup, operations, schedule bits)."
+const ruleC07 = "concurrent programs: after a generated sequential setup (1-2 collections, 3-8 documents, optional indexes) 2-8 goroutines each issue 2-6 generated operations (Insert batches with supplied ids, UpdateById, bulk Update/UpdateFunc/Delete, DeleteById, CreateIndex, DropIndex, CreateCollection, DropCollection, FindAll, Count, FindById, ListCollections) on one handle over bbolt or badger; a store decorator consults a drawn bit vector before every store call and yields (Gosched) or sleeps up to 200 microseconds to perturb the schedule. The recorded call/return history with result digests must be linearizable with respect to the reference model (porcupine; a store conflict error is legal only as a no-op; a checker timeout is inconclusive, never a violation); a sequential epilogue (Count without criteria, full and index-ordered scans, catalogs) is part of every history, so drift left behind by a race is seen too. A second phase shares one *query.Query / Criteria between goroutines that derive queries from it concurrently. The same cases run in a -race build; any data-race report is a violation. A fourth part lets 2-8 goroutines insert batches of documents without _id at the same moment: every insert succeeds, every assigned id is a valid UUID handed out once, the collection holds exactly those documents (also in the -race build). A third part runs one writer issuing bulk Updates over a collection of 257-1100 documents against readers that export, scan and index-scan it: every single ExportCollection / FindAll result must show one generation for all documents. An evaluation is one concurrent program; non-trivial when at least two operations overlapped in real time on the same collection and one of them was a write; distinct = distinct programs (setup, operations, schedule bits)."
 
 type c07Op struct {
 	Client int         `json:"client"`
@@ -535,6 +535,138 @@ func TestC07(t *testing.T) {
 	if os.Getenv("VERIF_RACE") == "" {
 		t.Run("snapshot-readers", testC07SnapshotReaders)
 	}
+	t.Run("fresh-ids", testC07FreshIds)
+}
+
+// c07Ids: several goroutines insert batches of documents without _id at the same moment (also
+// through InsertOne and NewObjectId directly). Every insert must succeed, every assigned id must
+// be a valid UUID, no id may be handed out twice, and afterwards the collection holds exactly
+// the inserted documents.
+type c07Ids struct {
+	Backend string `json:"backend"`
+	Workers int    `json:"workers"`
+	Batches int    `json:"batches"`
+	Size    int    `json:"size"`
+}
+
+func runC07Ids(c *c07Ids) *sm.Fail {
+	bad := func(f string, a ...interface{}) *sm.Fail {
+		return &sm.Fail{Property: "C07", Clause: "fresh-ids", Detail: fmt.Sprintf("[%s, %d goroutines] ", c.Backend, c.Workers) + fmt.Sprintf(f, a...)}
+	}
+	s, err := sm.NewSession("C07", "c07ids", c.Backend)
+	if err != nil {
+		return &sm.Fail{Property: "C07", Clause: "harness", Detail: err.Error()}
+	}
+	defer s.Close()
+	if f := s.Do(cs.Op{Kind: "createcoll", Coll: "A"}); f != nil {
+		return f
+	}
+	var mu sync.Mutex
+	ids := map[string]int{}
+	acked := 0
+	var first *sm.Fail
+	fail := func(f *sm.Fail) {
+		mu.Lock()
+		if first == nil {
+			first = f
+		}
+		mu.Unlock()
+	}
+	var wg sync.WaitGroup
+	gate := make(chan struct{})
+	for w := 0; w < c.Workers; w++ {
+		wg.Add(1)
+		go func(w int) {
+			defer wg.Done()
+			<-gate
+			for b := 0; b < c.Batches; b++ {
+				docs := make([]cs.Doc, c.Size)
+				for i := range docs {
+					docs[i] = cs.Doc{"w": int64(w), "b": int64(b), "i": int64(i)}
+				}
+				kind := "insert"
+				if c.Size == 1 && b%2 == 1 {
+					kind = "insertone"
+				}
+				var out *cs.Outcome
+				for try := 0; try < 20; try++ {
+					out = run.Exec(s.H.DB, &cs.Op{Kind: kind, Coll: "A", Docs: docs})
+					if !isConflict(out.Err) {
+						break
+					}
+				}
+				if strings.HasPrefix(out.Err, "panic") || out.Err == "hang" {
+					fail(&sm.Fail{Property: "C20", Clause: "no-panic-no-hang", Detail: "concurrent insert of documents without _id: " + out.Err})
+					return
+				}
+				if isConflict(out.Err) {
+					continue // rejected by the store (write conflict, also after retries): legal, no effect
+				}
+				if out.Err != "" {
+					fail(bad("an insert of %d documents without _id failed: %s", c.Size, out.Err))
+					return
+				}
+				mu.Lock()
+				acked += c.Size
+				for _, id := range out.Ids {
+					if !model.ValidId(id) {
+						mu.Unlock()
+						fail(bad("the assigned _id %q is not a valid UUID", id))
+						return
+					}
+					ids[id]++
+				}
+				mu.Unlock()
+			}
+		}(w)
+	}
+	close(gate)
+	wg.Wait()
+	if first != nil {
+		return first
+	}
+	want := acked
+	for id, k := range ids {
+		if k > 1 {
+			return bad("the _id %q was assigned %d times", id, k)
+		}
+	}
+	if len(ids) != want {
+		return bad("%d distinct ids were assigned to %d documents", len(ids), want)
+	}
+	all := run.Exec(s.H.DB, &cs.Op{Kind: "find", Q: &cs.Query{Coll: "A"}})
+	cnt := run.Exec(s.H.DB, &cs.Op{Kind: "count", Q: &cs.Query{Coll: "A"}})
+	if all.Err != "" || cnt.Err != "" || len(all.Docs) != want || cnt.N != want {
+		return bad("after %d acknowledged documents: FindAll returns %d (%s), Count %d (%s)", want, len(all.Docs), all.Err, cnt.N, cnt.Err)
+	}
+	for _, d := range all.Docs {
+		if id, _ := d["_id"].(string); ids[id] != 1 {
+			return bad("the stored document %s carries an _id that no insert reported", cs.Show(d))
+		}
+	}
+	return nil
+}
+
+func init() {
+	replayers["c07ids"] = func(raw json.RawMessage) *sm.Fail {
+		var c c07Ids
+		if err := json.Unmarshal(raw, &c); err != nil {
+			return &sm.Fail{Property: "C07", Clause: "replay", Detail: err.Error()}
+		}
+		return runC07Ids(&c)
+	}
+}
+
+func testC07FreshIds(t *testing.T) {
+	col := collector("C07", ruleC07)
+	check(t, "C07", cases(40, 1000), 0, func(rt *rapid.T) {
+		c := &c07Ids{Backend: rapid.SampledFrom(raceBackends).Draw(rt, "backend"), Workers: rapid.IntRange(2, 8).Draw(rt, "workers"),
+			Batches: rapid.IntRange(2, 12).Draw(rt, "batches"), Size: rapid.SampledFrom([]int{1, 1, 3, 20}).Draw(rt, "size")}
+		if f := runC07Ids(c); f != nil {
+			violate(rt, "C07", "c07ids", c, f)
+		}
+		col.Case(true, hashOf(c), func() interface{} { return c }, "fresh-ids", "backend:"+c.Backend)
+	})
 }
 
 // c07Snap: one writer rewrites a field of every document of a large collection with bulk
